@@ -565,6 +565,9 @@ func registerNatives(in *Interp) {
 	n["context.Background"] = nil
 	delete(n, "context.Background")
 	registerStringNatives(in)
+	registerStrNatives(in)
+	registerClassAdNatives(in)
+	registerTimeNatives(in)
 }
 
 // bufferAppend implements the write side of bytes.Buffer on its real fields.
